@@ -9,7 +9,9 @@
                                                (model: load (save s); spec: (1 content s))
      3  whether every annotation of the loaded store addresses the same text
                                                (model: computed on load (save s); spec: 1)
-   Known class 1 = Known_C15_tempid (items without public id). *)
+     4  the hypothesis of the row theorems: store_ok s (ranges inside their resource / parent,
+        lengths within the cursor type); model: computed, spec: 1, the harness answers 1
+   Known class 1 = Known_C15_tempid (items without public id), 2 = Known_C15_empty_complex. *)
 From Coq Require Import List ZArith NArith Bool Arith.
 Import ListNotations.
 From Stam Require Import Base.Sx Model.Offset Model.Store Model.Loader Model.Csv Spec.CsvSpec Run.StoreRun.
@@ -93,7 +95,7 @@ Definition store_texts (s : store) : sx :=
 
 Definition run_C15 (x : sx) : sx :=
   let s := run (map op_of_sx (sx_list x)) in
-  let known := if Known_C15_tempid s then 1 else 0 in
+  let known := known_class s in
   let rt := roundtrip s in
   let same_text := match rt with
                    | LOk s' => of_bool (sx_eqb (store_texts s') (store_texts s))
@@ -103,4 +105,5 @@ Definition run_C15 (x : sx) : sx :=
      triple (rows_obs (map_opt (fun ha => pack_row s (fst ha) (snd ha)) (live_items (anns s))))
             (rows_obs (map_opt (fun ha => spec_row s (fst ha) (snd ha)) (live_items (anns s)))) 0;
      triple (sx_of_loaded rt) (roundtrip_spec s) known;
-     triple same_text (A 1) known].
+     triple same_text (A 1) known;
+     triple (of_bool (store_ok s)) (A 1) 0].
